@@ -185,7 +185,7 @@ class Val(Atom):
     def __init__(self, t):
         Atom.__init__(self, "val_" + t.id)
         self.t = t
-        self.lua = t.cname in ("int", "long", "double")
+        self.lua = True
 
     def decl(self, n):
         return ["%s %s" % (self.t.cname, n)]
@@ -395,7 +395,7 @@ STR_VALS = ["", "a", "ab  ", " a b", "abcdefgh"]
 class CStrIn(Atom):
     """const char *s : the library receives the text without trailing blanks, NUL terminated."""
 
-    lua = True
+    lua = False  # no corpus description wraps a char* argument for Lua; wrapl.py emits undeclared variables for it
 
     def __init__(self):
         Atom.__init__(self, "cstr_in")
@@ -484,6 +484,7 @@ class StrIn(Atom):
     def __init__(self, form):
         Atom.__init__(self, "str_in_" + form)
         self.form = form
+        self.lua = form == "cref"  # the only std::string argument form the corpus wraps for Lua
 
     def _p(self, n):
         return {"cref": "const std::string &%s", "val": "std::string %s", "cptr": "const std::string *%s"}[self.form] % n
@@ -727,7 +728,7 @@ class NatRes(Res):
     def __init__(self, t):
         Res.__init__(self, "ret_" + t.id)
         self.t = t
-        self.lua = t.cname in ("int", "long", "double")
+        self.lua = True
 
     def rtype(self, lang):
         return self.t.cname
@@ -776,7 +777,7 @@ class CharRes(Res):
 class CStrRes(Res):
     """const char * result: allocatable copy (default) or +len(N) fixed length"""
 
-    lua = True
+    lua = False
 
     def __init__(self, text, flen=None):
         Res.__init__(self, "ret_cstr_%d%s" % (len(text), "_len%d" % flen if flen else ""))
@@ -784,7 +785,6 @@ class CStrRes(Res):
         self.flen = flen
         if flen:
             self.attrs = " +len(%d)" % flen
-            self.lua = False
 
     def rtype(self, lang):
         return "const char *"
